@@ -97,7 +97,8 @@ class LabGen:
                 continue
             if any(n.endswith(s) for s in ("Client", "Endpoints", "Service")) or n.startswith("Async"):
                 continue
-            if low in ("sub", "deep", "lab", "other", "example", "verif", "com", "org"):
+            # (a type named like a package component can sit next to that sub-package: pinned finding C03-type-vs-subpackage-module)
+            if low in ("sub", "deep", "lab", "other", "example", "verif", "com", "org") or low in {c.lower() for pkg in self.p.packages for c in pkg.split(".")}:
                 continue
             self.used_names.add(low)
             return n
@@ -480,16 +481,26 @@ class LabGen:
         return t
 
     def _declared_safe_alias(self, t):
-        while t["type"] == "reference" and self.by_name[t["reference"]["name"]].kind == "alias":
-            d = self.by_name[t["reference"]["name"]]
-            if d.safety == "SAFE":
-                return True
-            t = d.alias
-        return False
+        while True:
+            if t["type"] == "reference" and self.by_name[t["reference"]["name"]].kind == "alias":
+                d = self.by_name[t["reference"]["name"]]
+                if d.safety == "SAFE":
+                    return True
+                t = d.alias
+            elif t["type"] == "external":
+                t = t["external"]["fallback"]
+            else:
+                return False
 
     def _is_binary(self, t):
-        while t["type"] == "reference" and self.by_name[t["reference"]["name"]].kind == "alias":
-            t = self.by_name[t["reference"]["name"]].alias
+        # as the generator sees it: through aliases and through the fallback of external types
+        while True:
+            if t["type"] == "reference" and self.by_name[t["reference"]["name"]].kind == "alias":
+                t = self.by_name[t["reference"]["name"]].alias
+            elif t["type"] == "external":
+                t = t["external"]["fallback"]
+            else:
+                break
         return t["type"] == "primitive" and t["primitive"] == "BINARY"
 
     def ir(self, shuffle_seed=None):
